@@ -186,6 +186,27 @@ func genArgs(c *GenCtx) {
 			c.add("args-expref", c.fnCall(sig, args), doc)
 		}
 	}
+	// malformed argument lists: at every position a missing comma, a wrong closing token, a trailing comma, nothing
+	for _, sig := range fnSigs {
+		maxAr := sig.max
+		if maxAr < 0 {
+			maxAr = 3
+		}
+		for k := 1; k <= maxAr+1; k++ {
+			args := make([]string, k)
+			for i := range args {
+				args[i] = "a"
+				if i == sig.expAt {
+					args[i] = "&a"
+				}
+			}
+			good := strings.Join(args, ", ")
+			for _, bad := range []string{good + " b", good + "]", good + ",", good + ", )", good + " &b", strings.Replace(good, ", ", " ", 1), good + ")", "," + good, good + ", ,b"} {
+				c.add("args-syntax", sig.name+"("+bad+")", doc)
+			}
+			c.add("args-syntax", sig.name+"("+good, doc)
+		}
+	}
 	// well-typed calls with boundary values
 	ints := []string{"-2", "-1", "0", "1", "2", "3", "5", "100", "2.0", "2e0", "1.5", "2.5", "0.5", "-1.5", "1e-1", "-0", "4611686018427387904", "9223372036854775807", "-9223372036854775808", "9223372036854775808", "1e400"}
 	strs := []string{"", "a", "abc", "abcabc", "aaa", "héllo", "€€", "😀x😀", "a b  ", "  a", "\u0301e", "x\ufffdy", "AbC", "ΣΑΣ", "Яя"}
@@ -1133,6 +1154,7 @@ func genBytes(c *GenCtx) {
 		`{"#":"dec","v":"Inf"}`, `{"#":"dec","v":"-Inf"}`, `{"#":"dec","v":"-0"}`, `{"#":"dec","v":"2.5"}`, `{"#":"jnum","x":""}`, `{"#":"jnum","x":"` + hex.EncodeToString([]byte("abc")) + `"}`,
 		`{"#":"jnum","x":"` + hex.EncodeToString([]byte("1e400")) + `"}`, `{"#":"jnum","x":"` + hex.EncodeToString([]byte("NaN")) + `"}`, `{"#":"jnum","x":"` + hex.EncodeToString([]byte("1_0")) + `"}`,
 		`{"#":"jnum","x":"` + hex.EncodeToString([]byte("+5")) + `"}`, `{"#":"jnum","x":"` + hex.EncodeToString([]byte(".5")) + `"}`, `{"#":"bytes","x":"c328"}`, `{"#":"bytes","x":"ff"}`, `{"#":"bytes","x":"e282"}`,
+		`{"#":"f32","v":"1p1"}`, `{"#":"f32","v":"-3p0"}`, `{"#":"f32","v":"1p70"}`, `{"#":"f32","v":"nan"}`, `{"#":"f64","v":"1p1"}`, `{"#":"f64","v":"5p-1"}`, `{"#":"f64","v":"1p63"}`, `{"#":"f64","v":"0p0"}`,
 		`{"#":"foreign","t":1}`, `{"#":"foreign","t":2}`, `{"#":"nilslice"}`, `{"#":"i8","v":"-128"}`, `{"#":"u64","v":"18446744073709551615"}`, `{"#":"uint","v":"9223372036854775808"}`,
 		`{"#":"i64","v":"-9223372036854775808"}`, `{"#":"cap","v":[1,2]}`, `[{"#":"f64","v":"nan"},1]`, `{"k":{"#":"foreign","t":3}}`, `"plain"`, `3`, `null`, `[]`, `{}`}
 	zexprs := []string{"v", "abs(v)", "ceil(v)", "floor(v)", "-v", "+v", "v + v", "v - `1`", "v * w", "v / w", "v // w", "v % w", "v == v", "v == w", "v != w", "v < w", "v >= w", "!v", "v && w", "v || w", "type(v)",
